@@ -59,15 +59,23 @@ def import_repo():
 # interpreter would: what one explored path leaves behind must not leak into the next one, or a counterexample would
 # depend on the order in which the harness happened to run its cases and could not be replayed on its own.  State that
 # leaks between the steps of ONE path (one history) is of course kept: that is the code's behaviour.
-_STATE = []
+_STATE = []          # (live container, deep copy as imported)
+_BINDINGS = []       # (owner module / class, {data attribute name: object bound at import})
+
+_DATA_TYPES = (type(None), bool, int, float, complex, str, bytes, tuple, frozenset, list, dict, set)
+
+
+def _is_data(v):
+    return isinstance(v, _DATA_TYPES)
 
 
 def _snapshot_state(mods):
     import copy
     del _STATE[:]
+    del _BINDINGS[:]
     seen = set()
 
-    def note(owner, key, val):
+    def note(val):
         if isinstance(val, (list, dict, set)) and id(val) not in seen:
             seen.add(id(val))
             try:
@@ -77,18 +85,38 @@ def _snapshot_state(mods):
     for name, m in mods.items():
         if not isinstance(m, types.ModuleType):
             continue
+        owners = [m]
         for k, v in list(vars(m).items()):
-            if k.startswith('__'):
-                continue
-            note(m, k, v)
             if isinstance(v, type) and getattr(v, '__module__', '') == m.__name__:
-                for ck, cv in list(vars(v).items()):
-                    if not ck.startswith('__'):
-                        note(v, ck, cv)
+                owners.append(v)
+        for o in owners:
+            b = {}
+            for k, v in list(vars(o).items()):
+                if k.startswith('__') or not _is_data(v):
+                    continue
+                b[k] = v
+                note(v)
+            _BINDINGS.append((o, b))
 
 
 def reset_repo_state():
+    """Module-level and class-level data of /repo back to what it was right after import: containers are restored in
+    place, names that were rebound (``global PRESSURES; PRESSURES = {...}``) are bound to their import-time object again,
+    data names that did not exist at import are removed."""
     import copy
+    for o, b in _BINDINGS:
+        cur = vars(o)
+        for k, v in b.items():
+            if k not in cur or cur[k] is not v:
+                try:
+                    setattr(o, k, v)
+                except Exception:
+                    pass
+        for k in [k for k, v in list(cur.items()) if k not in b and not k.startswith('__') and _is_data(v)]:
+            try:
+                delattr(o, k)
+            except Exception:
+                pass
     for live, saved in _STATE:
         try:
             if live == saved:
